@@ -14,7 +14,7 @@ RULE = (
     ">=2 variables written and at least one line rejected; state = (variables, counters, record)"
 )
 BOUNDS = {
-    "quick": "930 ordered pairs x {no filter, filter first, filter last} x 18 files x window *; pairs x 6 files x windows {1*, 1-2}",
+    "quick": "930 ordered pairs x {no filter, filter first, filter last} x 20 files x window *; pairs x 6 files x windows {1*, 1-2}",
     "thorough": "pairs x 3 filters x 3 positions x all 259 files of <=3 records x 3 windows; triples over a 12-writer subset x 20 files",
 }
 CHUNK = 60
@@ -96,7 +96,7 @@ XON = next(i for i, w in enumerate(WRITERS) if w[0] == "=" and w[1][1] == "x" an
 FILTERS = [["==", H0, T("1")], fn("no"), ["==", H1, T("2")]]
 PRINT = fn("print", [], [T("$.csvpath.count_scans $.csvpath.line_number ")])
 ROWS = {"p": ["1", "2"], "q": ["2", "1"], "r": ["10", "9"], "e": ["", "x"], "s": ["abc"], "b": None, "t": ["1", "9"]}
-FILES_Q = ["p", "pq", "qp", "pp", "pqr", "rqp", "ppq", "pqp", "pbq", "prp", "qrq", "pqb", "ppp", "bpq", "qqp", "qrp", "pqt", "qpt"]
+FILES_Q = ["b", "bpb", "p", "pq", "qp", "pp", "pqr", "rqp", "ppq", "pqp", "pbq", "prp", "qrq", "pqb", "ppp", "bpq", "qqp", "qrp", "pqt", "qpt"]
 FILES_W = ["pqr", "rqp", "ppq", "pbq", "pqpq", "qprp"]
 
 
